@@ -24,6 +24,11 @@ PROBES = [
     "\n\n\nPROGRAM p END_PROGRAM",
     "PROGRAM p // line comment\n// another\n\n VAR x : INT; END_VAR x := x + 1; END_PROGRAM",
     "FUNCTION_BLOCK f VAR_INPUT RETAIN a AT %IX1.2 : BOOL; END_VAR VAR CONSTANT k : INT := 16#FF; END_VAR END_FUNCTION_BLOCK",
+    # documents being typed: the text ends after a keyword that may be followed by an optional terminator, then trivia
+    "PROGRAM p VAR x : INT; END_VAR IF x > 0 THEN x := 1; END_IF (* drained *)",
+    "PROGRAM p\r\nVAR x : INT; END_VAR\r\nIF x > 0 THEN\r\n  x := 1;\r\nEND_IF (* a *) (* b *)\r\n",
+    "PROGRAM p VAR x : INT; END_VAR IF x > 0 THEN x := 1; END_IF\n// tail\n",
+    "PROGRAM p VAR x : INT; END_VAR x := 1; (* last *)",
 ]
 
 
@@ -103,6 +108,11 @@ def semtok_documents(tier, seed, class_table, kw_default, cov):
             sl = tb[x["s"]:x["e"]].decode("utf-8", "replace")
             hl.append([line, cb, cc, cu, x["e"] - x["s"], len(sl), len(sl.encode("utf-16-le")) // 2, x["k"]])
         docs.append({"classes": None, "text": t, "hl": hl, "err": err, "labels": {"generated"}})
+    # a document whose token stream was rejected is C05's business as far as positions go - but the comments of its text are
+    # known without any lexer: it stays in the corpus with an empty expectation list and is judged by the comment oracle only
+    for i in sorted(usable & rejected):
+        if not any(x["k"] == "LexErr" for x in lexcheck.impl_lexemes(res[i])):
+            docs.append({"classes": None, "text": texts[i], "hl": None, "err": False, "labels": {"generated", "comments-only"}})
     cov["generated_documents"] = len(docs)
     cov["generated_documents_left_to_C05"] = len(rejected)
     return docs
